@@ -6,14 +6,18 @@
 (*   original bytes: ModuleTextSource::try_get_original_bytes 1436-1456      *)
 EXTENDS Naturals, Sequences
 
-Schemes == {"file", "https"}
+\* "jsr": a registry package file reached through a jsr: specifier whose version manifest embeds module information,
+\* with a cold loader cache, so that the module is created first and its content arrives through the deferred content
+\* load (handle_jsr_registry_pending_content_loads); registry loads carry no charset (always none here)
+Schemes == {"file", "https", "jsr"}
 Headers == {"none", "utf-8", "utf-16le", "utf-16be", "windows-1252", "bogus"}
 \* byte classes of the supplied content
 Classes == {"ascii", "utf8", "utf8bom", "utf16le_bom", "utf16be_bom", "utf16le_nobom", "invalid_utf8", "empty"}
 
 \* the charset the bytes are decoded with
 CharsetUsed(scheme, header, cls) ==
-  IF header # "none" THEN header
+  IF scheme = "jsr" THEN "utf-8"
+  ELSE IF header # "none" THEN header
   ELSE IF scheme = "file" /\ cls = "utf16le_bom" THEN "utf-16le"
   ELSE IF scheme = "file" /\ cls = "utf16be_bom" THEN "utf-16be"
   ELSE "utf-8"
